@@ -518,8 +518,11 @@ fn apply_sack_to_sent_queue(
 ) -> SackOutcome {
     let before_head = sent_queue.keys().next().cloned();
 
-    // 0. Filter out late SACKs
-    if let Some(&lowest_tsn) = sent_queue.keys().next()
+    // 0. Filter out late SACKs. "Lowest" is the oldest outstanding TSN in
+    // serial-number order: around the 2^32 wrap the map's first key is not it.
+    if let Some(&lowest_tsn) = sent_queue
+        .keys()
+        .min_by_key(|&&t| t.wrapping_sub(cumulative_tsn_ack) as i32)
         && (cumulative_tsn_ack.wrapping_sub(lowest_tsn.wrapping_sub(1)) as i32) < 0
     {
         // This SACK is even older than our earliest outstanding TSN,
